@@ -264,6 +264,83 @@ def rand_date(r):
     d = r.choice([1, mdays(a, m), r.randint(1, mdays(a, m)), r.randint(1, mdays(a, m))])
     return a, m, d
 
+def landing_dates():
+    """boundary days (astronomical y, m, d) that an operation should be made to LAND on"""
+    out = []
+    for a in [2000, 1600, 2400, 400, 1200, 10000, 2147483600, 0, 4, 8, 96, 104, 1004, 1996, 2004, 2024, 2096, 2104, 9996,
+              100, 200, 300, 1000, 1100, 1500, 1700, 1800, 1900, 2100, 2200, 2300, 1, 2, 3, 5, 1001, 1999, 2001, 2023, 2025, 9999, 2147483647]:
+        out += [(a, 2, 28), (a, 3, 1), (a, 12, 31), (a, 1, 1)]
+        if leap(a): out.append((a, 2, 29))
+    for a in (2023, 2024, 1, 0, 2147483646):
+        for m in range(1, 13):
+            out += [(a, m, mdays(a, m)), (a, m, 1)]
+    out += [(I32_MAX, 12, 30), (I32_MAX, 12, 29), (0, 12, 30), (-1, 12, 31), (-3, 2, 28), (-4, 2, 29), (-400, 2, 29), (-100, 2, 28), (-100, 3, 1)]
+    seen = set(); res = []
+    for x in out:
+        if x not in seen and RD_MIN <= rd(*x) <= RD_MAX:
+            seen.add(x); res.append(x)
+    return res
+
+def landing_cases(c):
+    """target-directed cases: the landing date is chosen from the boundary set, the start date and the offset are derived
+    from it with the rd / month-index spec.  Returns (cases, week_cases, day_twin_cases): the last two are index-aligned
+    (d - k weeks and d - 7k days from the same start)."""
+    r = c.rng
+    cases, wk, dy = [], [], []
+    def emit(lst, fam, start, steps, proj=0):
+        if not (RD_MIN <= rd(*start) <= RD_MAX) or start[0] > I32_MAX: return False
+        l, pre = route_to(start)
+        if pre and pre[0][2] > 3 * 10 ** 6: return False       # keep the stepping cheap
+        lst.append((fam, lit_canon(*l), l, pre + steps, proj)); return True
+    for T in landing_dates():
+        t = rd(*T)
+        proj = r.choice([0, 0, 0, 1])
+        # + k days / - k days landing on T
+        for k in [1, 2, 7, 28, 365, 366, 1461, 36524, 36525, 146097, r.randint(1, 400), r.randint(1, 200000)]:
+            if t - k >= RD_MIN: emit(cases, 'land-add-days', of_rd(t - k), [('add', k)], proj)
+            if t + k <= RD_MAX: emit(cases, 'land-sub-days', of_rd(t + k), [('sub', 'day', k)], proj)
+        # - k weeks landing on T, with the twin - 7k days
+        for k in [1, 2, 9, 52, 53, 104, 5218, 20871, r.randint(1, 60), r.randint(1, 30000)]:
+            if t + 7 * k <= RD_MAX:
+                S = of_rd(t + 7 * k)
+                if emit(wk, 'land-sub-weeks', S, [('sub', 'week', k)], 0):
+                    emit(dy, 'land-sub-7k-days', S, [('sub', 'day', 7 * k)], 0)
+        # - k months landing in T's month with T's day of month (start must have that day)
+        a, m, d = T
+        idx = 12 * (a - 1) + (m - 1)
+        for k in [1, 2, 3, 11, 12, 13, 24, 48, 1200, 4800, 12 * r.randint(1, 50), r.randint(1, 5000)]:
+            j = idx + k
+            a2, m2 = j // 12 + 1, j % 12 + 1
+            if a2 <= I32_MAX and d <= mdays(a2, m2):
+                emit(cases, 'land-sub-months', (a2, m2, d), [('sub', 'month', k)], proj)
+            # non-existent landings: a longer day of month aimed at T's (short) month
+            if d == mdays(a, m) and d < 31 and a2 <= I32_MAX:
+                for dd in range(d + 1, 32):
+                    if dd <= mdays(a2, m2):
+                        emit(cases, 'land-sub-months-nonexistent', (a2, m2, dd), [('sub', 'month', k)], 0)
+        # - k years landing on T (29 February: only from leap years; from leap years onto common ones: non-existent)
+        for k in [1, 2, 3, 4, 8, 96, 100, 104, 200, 300, 400, 800, 1000, 4 * r.randint(1, 300), r.randint(1, 3000)]:
+            a2 = a + k
+            if a2 > I32_MAX: continue
+            if d <= mdays(a2, m):
+                emit(cases, 'land-sub-years', (a2, m, d), [('sub', 'year', k)], proj)
+            if (m, d) == (2, 28) and not leap(a) and leap(a2):
+                emit(cases, 'land-sub-years-nonexistent', (a2, 2, 29), [('sub', 'year', k)], 0)
+    return cases, wk, dy
+
+def run_landing(c, ck=True, profile='debug', tag=''):
+    cases, wk, dy = landing_cases(c)
+    run_calc_cases(c, cases, ck=ck, profile=profile, tag=tag)
+    ew, iw = run_calc_cases(c, wk, ck=ck, profile=profile, tag=tag)
+    ed, idy = run_calc_cases(c, dy, ck=ck, profile=profile, tag=tag)
+    # the cross-operation law d - k weeks = d - 7k days, on the implementation alone
+    for a, b, oa, ob in zip(ew, ed, iw, idy):
+        c.note_case(tag + 'law:' + a, True, 'law-weeks-eq-7k-days')
+        if impl_eval(oa) != impl_eval(ob):
+            c.violation('weeks-vs-days', {'kind': 'impl-vs-spec', 'layer': 'L2 evaluate', 'profile': profile, 'law': 'd - k weeks = d - 7k days',
+                                          'expr': a, 'expr_days': b, 'impl': list(impl_eval(oa)), 'impl_days': list(impl_eval(ob))})
+    return len(cases) + len(wk) + len(dy)
+
 def random_cases(c, n):
     r = c.rng
     big = 10 ** 6
@@ -606,7 +683,9 @@ def check(c):
     c.rule = ('calc cases: @literal (+ n days | - n days/weeks/months/years)* with optional day_of_week of / month of, dates from year 1 to i32::MAX '
               '(years < 1000 and BC reached by subtraction), offsets log-uniform up to 10^6; non-trivial = some step leaves the starting month, or the '
               'answer is an error / a non-existent day, or >= 2 steps. literal cases: non-trivial = not the canonical spelling of a real day. '
-              'year sweeps: one case per (year, op) = 372 evaluations. distinct by expression text.')
+              'landing cases: the landing day is drawn from the boundary set (29 Feb of years divisible by 4/100/400 and their neighbours, month ends, '
+              '31 Dec / 1 Jan, year 1, BC/AD, i32 ends) and start + offset derived from it, for + days, - days, - weeks, - months, - years; plus the law '
+              'd - k weeks = d - 7k days. year sweeps: one case per (year, op) = 372 evaluations. distinct by expression text.')
     selfcheck()
     ok = c.proof(['C16'], extra_targets=['Extract/XDate.vo'])
     if c.tier == 'thorough' and ok:
@@ -618,8 +697,10 @@ def check(c):
     exprs, impl = run_calc_cases(c, b)
     c.sample({'expr': exprs[60], 'impl': impl_eval(impl[60])[1]})
     run_operand_errors(c)
+    # 1b. target-directed: every operation made to land on every boundary day
+    c.extra['landing_cases'] = run_landing(c)
     # 2. random calculations
-    rc = random_cases(c, 3000 if quick else 40000)
+    rc = random_cases(c, 2500 if quick else 40000)
     exprs, impl = run_calc_cases(c, rc)
     for k in (1, 2, 3):
         c.sample({'expr': exprs[k], 'impl': impl_eval(impl[k])[1]})
@@ -647,6 +728,7 @@ def check(c):
     # 6. thorough: release profile (no overflow checks) on the boundary corpus and a random subset
     if not quick:
         run_calc_cases(c, b, ck=False, profile='release', tag='release:')
+        run_landing(c, ck=False, profile='release', tag='release:')
         run_calc_cases(c, random_cases(c, 5000), ck=False, profile='release', tag='release:')
         run_year_sweeps(c, [1000, 1900, 2000, 2024, 9999, 2147483647], ck=False, profile='release')
     c.extra['fixed_findings_in_corpus'] = ['was-bc-weekday', 'was-year-overflow', 'was-sub-years-mul']
